@@ -705,3 +705,25 @@ add("D9b", "break", CORE, RMC, _m("        mask_chunks = mask_chunks[first_chunk
 add("D9b", "keep", CORE, RMC, "if self.key_is_chunked and mask is not None and (not mask_is_boolean):", "if self.key_is_chunked and (not mask_is_boolean) and (mask is not None):", name="D9b conjuncts reordered")
 add("D9b", "keep", CORE, RMC, _m("            if not pd.api.types.is_bool_dtype(mask):\n                bool_mask = np.full(len(self), False)\n                bool_mask[mask] = True\n                mask = bool_mask\n"),
     _m("            if not pd.api.types.is_bool_dtype(mask):\n                bool_mask = np.zeros(len(self), dtype=bool)\n                bool_mask[mask] = True\n                mask = bool_mask\n"), name="D9b np.zeros bool")
+
+# --------------------------------------------------------------------------------------------- P25 / P26 / D9 dropped selection / F1 exhaustive
+add("P25", "break", CORE, "GroupBy.groups", "key_count = self.ikey_count[self._labels_argsort]", "key_count = self.ikey_count", name="P25 groups cut with code-order counts")
+add("P25", "break", CORE, "GroupBy.apply", "group_counts = self.ikey_count[self._labels_argsort]", "group_counts = self.ikey_count", name="P25 apply splits with code-order counts")
+add("P25", "break", CORE, "GroupBy.ema", "group_counts = self.ikey_count[self._labels_argsort]", "group_counts = self.ikey_count", name="P25 ema repeats codes with code-order counts")
+add("P25", "break", CORE, "GroupBy._group_sort_indexer", "group_counts = self.ikey_count[self._labels_argsort]", "group_counts = self.ikey_count", name="P25 counting sort sized with code-order counts")
+add("P25", "break", CORE, "GroupBy._build_group_sorted_index", _m("        group_counts = group_counts[self._labels_argsort]\n"), "", name="P25 index built with code-order counts when sorting")
+add("P25", "keep", CORE, "GroupBy.groups", "key_count = self.ikey_count[self._labels_argsort]\n        group_indexers = np.array_split(indexer, np.cumsum(key_count)[:-1])",
+    "group_indexers = np.array_split(indexer, np.cumsum(self.ikey_count[self._labels_argsort])[:-1])", name="P25 counts inlined")
+add("P25", "keep", CORE, "GroupBy.apply", "group_counts = self.ikey_count[self._labels_argsort]", "counts_by_code = self.ikey_count\n        group_counts = counts_by_code[self._labels_argsort]", name="P25 two steps")
+
+add("P26", "break", NB, "group_mean", "mean = sum_ / count", "mean = sum_ // count", name="P26 floor division by the counts")
+add("P26", "keep", NB, "group_mean", "mean = sum_ / count", "mean = np.true_divide(sum_, count)", name="P26 np.true_divide")
+
+SC = "_apply_group_method_single_chunk"
+add("D9", "break", NB, SC, "    target = _build_target_for_groupby(", "    if indexer is not None and len(indexer) == len(group_key):\n        indexer = None\n    target = _build_target_for_groupby(", name="D9 full-length selection dropped")
+add("D9", "break", NB, SC, "    target = _build_target_for_groupby(", "    if check_in_bounds and len(indexer) > len(group_key):\n        indexer = None\n    target = _build_target_for_groupby(", name="D9 long positional selection dropped")
+
+FZ1 = "factorize_1d"
+add("F1", "break", FACT, FZ1, "    if not isinstance(values, pd.Series):\n        values = pd.Series(values)\n", "    if isinstance(values, pd.Index) and values.is_unique:\n        return (np.arange(len(values)), values)\n    if not isinstance(values, pd.Series):\n        values = pd.Series(values)\n", name="F1 unique-index shortcut numbers the rows, nulls included")
+add("F1", "break", FACT, FZ1, "codes, uniques = pd.factorize(values, use_na_sentinel=True)", "uniques, codes = np.unique(np.asarray(values), return_inverse=True)", name="F1 np.unique route has no null sentinel")
+add("F1", "keep", FACT, FZ1, "codes, uniques = pd.factorize(values, use_na_sentinel=True)", "factorized = pd.factorize(values, use_na_sentinel=True)\n        codes, uniques = factorized", name="F1 factorize result in a local")
